@@ -24,6 +24,10 @@ size_t simfd_rx_pending(int task, int fd);
 /* FILE* over simulated content: chunks/faults come from the current op's fault script (FC_READ) */
 FILE *simfd_cookie_stream(const void *data, size_t len, int seekable, size_t startpos);
 FILE *simfd_cookie_stream_unreadable(void);
+#define SIMFD_TRANS_MAX 8
+struct simfd_transient { int stream; size_t pos; };
+extern struct simfd_transient simfd_transient_log[SIMFD_TRANS_MAX]; extern int simfd_ntransient;
+int simfd_last_cookie_id(void);
 extern int simfd_stream_transient; extern size_t simfd_last_cookie_pos;      /* FO_ETRANSIENT on a cookie stream: count so far, stream position at the last one */
 uint32_t simfd_gen_now(void);
 void simfd_set_select_eintr(int k);
